@@ -347,7 +347,7 @@ type Out struct {
 	Removed []int    `json:"removed,omitempty"` // SetAndGetRemoved
 	Keys    []Key    `json:"keys,omitempty"`
 	Items   []KV     `json:"items,omitempty"`
-	N       [4]int64 `json:"n,omitempty"` // Stats: length,size,capacity,evictions; single numbers in N[0]
+	N       [4]int64 `json:"n,omitempty"`   // Stats: length,size,capacity,evictions; single numbers in N[0]
 	Bad     string   `json:"bad,omitempty"` // StatsJSON: the text, when it is not a JSON object of exactly the four numbers
 }
 
@@ -1740,14 +1740,14 @@ func sprinkleNil(t *rapid.T, ops []Op) {
 // sprinkleVals gives, in one case out of four, about half of the storing calls a value of a non-comparable dynamic
 // type, and lets one storing call in four store the value the key was given last once more.
 func sprinkleVals(t *rapid.T, ops []Op) {
-	if rapid.IntRange(0, 3).Draw(t, "valuekinds") != 0 {
+	if rapid.IntRange(0, 3).Draw(t, "valuekinds") != 3 { // shrinks towards "none"
 		return
 	}
 	for i := range ops {
 		if storing(ops[i].K) {
 			x := rapid.IntRange(0, 7).Draw(t, "valuekind")
-			ops[i].Slice = x < 4
-			ops[i].Again = x == 0 || x == 7
+			ops[i].Slice = x >= 4
+			ops[i].Again = x == 3 || x == 7
 		}
 	}
 }
